@@ -261,9 +261,23 @@ class Workdir(object):
         for f in case['files']:
             if f.get('dir'):
                 os.makedirs(os.path.join(self.w, f['dir']), exist_ok=True)
+        # the output files already exist (the command was run before) and
+        # the command rewrites them keeping an OLD modification time
+        # (cp -p, rsync -t, tar x): only their status-change time says
+        # that they were written
+        self.preexisting = (case['how'] in ('default', 'subdir')
+                            and bool(case['files'])
+                            and len(case['stderr']) % 2 == 0)
         self.write_payloads()
         self.write_cmd(case['exit'])
+        if self.preexisting:
+            for fl in case['files']:
+                op = os.path.join(self.w, self.out_name(fl))
+                with open(op, 'wb') as f:
+                    f.write(b'stale output of an earlier run\n')
+                os.utime(op, (1550000000, 1550000000))
         self.bystanders = {}
+        self.neighbour_done = False
         if case.get('bystanders'):
             # names that no generated glob (*.txt, *.bin, ...) matches:
             # a file matched by a glob the user gives IS declared an output
@@ -312,6 +326,8 @@ class Workdir(object):
         else:
             with open(p, 'wb') as f:
                 f.write(file_bytes(fl))
+        if self.preexisting:
+            os.utime(p, (1500000000, 1500000000))
 
     def out_name(self, fl):
         if fl.get('dir'):
@@ -325,8 +341,9 @@ class Workdir(object):
         for (i, fl) in enumerate(self.case['files']):
             if skip is not None and i == skip:
                 continue
-            lines.append('cp "%s" "%s"' % (self.payload_path('f%d' % i),
-                                           self.out_name(fl)))
+            lines.append('cp %s"%s" "%s"' % (
+                '-p ' if self.preexisting else '',
+                self.payload_path('f%d' % i), self.out_name(fl)))
         lines.append('exit %d' % exit_code)
         with open(os.path.join(self.w, 'cmd.sh'), 'w') as f:
             f.write('\n'.join(lines) + '\n')
@@ -362,18 +379,39 @@ class Workdir(object):
         env.pop('TMPDIR_SET_BY_GENTEST', None)
         return env
 
+    def neighbour_script(self):
+        """Another test, generated earlier in the same directory, whose
+        name extends this one's (test_xy.py beside test_x.py) or differs
+        from it by one more underscore (test__x.py, references in
+        ref/_x/)."""
+        if not self.case.get('neighbour'):
+            return None
+        return ('test__x.py' if len(self.case['stdout']) % 2 == 0
+                else 'test_xy.py')
+
+    def generate_neighbour(self):
+        name = self.neighbour_script()
+        if name is None or self.neighbour_done:
+            return
+        self.neighbour_done = True
+        subprocess.run([sys.executable, '-m', 'tdda.constraints.console',
+                        'gentest', 'echo neighbour', name, '.', '-n', '1'],
+                       cwd=self.w, env=self.subenv(),
+                       stdout=subprocess.PIPE, stderr=subprocess.PIPE,
+                       text=True, encoding='utf-8', errors='replace',
+                       timeout=300)
+
+    def run_neighbour(self):
+        return subprocess.run([sys.executable,
+                               os.path.join(self.w, self.neighbour_script())],
+                              cwd=self.w, env=self.subenv(),
+                              stdout=subprocess.PIPE, stderr=subprocess.PIPE,
+                              text=True, encoding='utf-8', errors='replace',
+                              timeout=300)
+
     def generate(self):
         c = self.case
-        if c.get('neighbour'):
-            # another test, generated earlier in the same directory, whose
-            # name extends this one's (test_xy.py beside test_x.py)
-            subprocess.run([sys.executable, '-m', 'tdda.constraints.console',
-                            'gentest', 'echo neighbour', 'test_xy.py', '.',
-                            '-n', '1'],
-                           cwd=self.w, env=self.subenv(),
-                           stdout=subprocess.PIPE, stderr=subprocess.PIPE,
-                           text=True, encoding='utf-8', errors='replace',
-                           timeout=300)
+        self.generate_neighbour()
         argv = [sys.executable, '-m', 'tdda.constraints.console', 'gentest',
                 self.command(), self.script_arg()] + self.ref_args()
         argv += ['-n', str(c['n'])]
